@@ -135,7 +135,12 @@ func lookupFacts(s *src, f *facts) {
 	f.b("lkArgCountChecked", cnt != nil, s.pos(cnt))
 	firstDecode := first(s.callsTo(lb, "unmarshal"))
 	firstMake := first(s.callsTo(lb, "MakeFunc"))
-	f.b("lkArgCountBeforeDecode", cnt != nil && before(cnt, firstDecode) && before(cnt, firstMake) && before(fbIf, cnt), s.pos(cnt))
+	// …and before anything indexes the parameter list (`function.Type().In(i)` panics when there is no i-th one)
+	firstIn := first(all(lb, func(c *ast.CallExpr) bool {
+		sel, ok := c.Fun.(*ast.SelectorExpr)
+		return ok && sel.Sel.Name == "In" && strings.HasSuffix(s.str(sel.X), ".Type()")
+	}))
+	f.b("lkArgCountBeforeDecode", cnt != nil && before(cnt, firstDecode) && before(cnt, firstMake) && before(fbIf, cnt) && (firstIn == nil || before(cnt, firstIn)), s.pos(cnt))
 }
 
 func walkFacts(s *src, f *facts) {
@@ -293,6 +298,46 @@ func convertFacts(s *src, f *facts) {
 			})
 		}
 		f.b("pxArgsFreshPerInvocation", fresh, s.pos(proxy))
+		// the context handed to the underlying CallClosure RPC is the one THIS invocation was given (its first
+		// argument), held in a variable of the proxy's own — not the link's
+		ctxOwn := false
+		if proxy != nil {
+			declared, assigned := false, false
+			ast.Inspect(proxy.Body, func(n ast.Node) bool {
+				if vs, ok := n.(*ast.ValueSpec); ok {
+					for _, nm := range vs.Names {
+						if nm.Name == "ctx" {
+							declared = true
+						}
+					}
+				}
+				if a, ok := n.(*ast.AssignStmt); ok && len(a.Lhs) == 1 && s.str(a.Lhs[0]) == "ctx" && len(a.Rhs) == 1 {
+					// `ctx = v` with `v, ok := arg.Interface().(context.Context)`, or the assertion directly
+					rhs := s.str(a.Rhs[0])
+					if strings.Contains(rhs, ".(context.Context)") {
+						assigned = true
+						if a.Tok.String() == ":=" {
+							declared = true
+						}
+					} else if id, ok := a.Rhs[0].(*ast.Ident); ok {
+						for _, b := range all[*ast.AssignStmt](proxy.Body, nil) {
+							if len(b.Lhs) >= 1 && s.str(b.Lhs[0]) == id.Name && len(b.Rhs) == 1 && strings.Contains(s.str(b.Rhs[0]), ".(context.Context)") {
+								assigned = true
+							}
+						}
+					}
+				}
+				return true
+			})
+			used := false
+			for _, c := range s.callsTo(proxy, "Call") {
+				if strings.Contains(s.str(c), "reflect.ValueOf(ctx)") {
+					used = true
+				}
+			}
+			ctxOwn = declared && assigned && used
+		}
+		f.b("pxCtxIsInvocationCtx", ctxOwn, s.pos(proxy))
 	}
 	cc := s.funcDecl("", "createClosure")
 	var wrapper *ast.FuncLit
